@@ -85,13 +85,20 @@ def gen_history(rng, cap, nops, nkeys, reloc=0.05):
     keys = key_pool(rng, cap, nkeys)
     hdr = ['cap %d' % cap] + ['key %d %s %d' % (i, hexs(k), murmur3_32(k) % cap) for i, k in enumerate(keys)]
     ops = []
+    lastval = {}                       # what the generator last put under a key (it may have been refused or deleted since: only a hint)
     for _ in range(nops):
         r = rng.random()
         ki = rng.randrange(len(keys))
         if r < reloc:
             ops.append('reloc %d' % (4 * rng.randrange(16)))
         elif r < 0.45:
-            ops.append('put %d %s' % (ki, hexs(rand_value(rng))))
+            v = rand_value(rng)
+            if ki in lastval and rng.random() < 0.25:
+                # a value related to the one stored: a prefix cut at a slot boundary, the same bytes, one byte changed at the end
+                old = lastval[ki]
+                v = rng.choice([old[:31], old[:32], old[:33], old[:32 + 66], old, old[:-1] + bytes([old[-1] ^ 1]), old + b'\x00']) or old
+            lastval[ki] = v
+            ops.append('put %d %s' % (ki, hexs(v)))
         elif r < 0.60:
             ops.append('get %d' % ki)
         elif r < 0.78:
